@@ -282,6 +282,7 @@ def run(P, R, tier):
     check_class(P, R, "GMMStats")
     check_stats_load(P, R)
     cache.k6_load_replaces_state(P, R)
+    cache.k1_who_may_write(P, R)  # the reader restores parameters through the setters (clamp, normaliser, log-weights follow)
     # GMMStats.init_fields stores each parameter into its own field
     flds = fields.init_fields_of(P, "GMMStats", ("n_gaussians", "n_features"))
     fields.check_init_fields(P, R, "GMMStats", "init_fields", flds)
